@@ -45,6 +45,8 @@ func c10FS() fstest.MapFS {
 		"bad-include.vuego":  f(`<p>{{ who }}</p><template include="comp/none.vuego"></template>`),
 		"bad-required.vuego": f(`<p>a</p><template include="comp/card.vuego"></template>`),
 		"bad-layout.vuego":   f("---\nlayout: nolayout\n---\n<p>x</p>"),
+		// elements whose evaluation writes attributes, driven by a condition that differs between programs
+		"toggle.vuego": f(toggleElems("on", "who", "htmlv", "xs")),
 	}
 }
 
@@ -95,6 +97,14 @@ func c10Catalogue() []c10Prog {
 		d := d
 		ps = append(ps, c10Prog{name: name, entry: "VueRender", page: "typed.vuego", data: func() any { return d }})
 		ps = append(ps, c10Prog{name: name + ":load", entry: "LoadRender", page: "typed.vuego", data: func() any { return d }})
+	}
+	for name, d := range map[string]map[string]any{
+		"toggle:off": {"on": false, "who": "W-off", "htmlv": "<u>off</u>", "xs": []any{1, 2}},
+		"toggle:on":  {"on": true, "who": "W-on", "htmlv": "<b>on</b>", "xs": []any{1}},
+	} {
+		d := d
+		ps = append(ps, c10Prog{name: name, entry: "VueRender", page: "toggle.vuego", data: func() any { return d }})
+		ps = append(ps, c10Prog{name: name + ":load", entry: "LoadRender", page: "toggle.vuego", data: func() any { return d }})
 	}
 	sort.Slice(ps, func(i, j int) bool { return ps[i].name < ps[j].name })
 	ps = append(ps, c10Prog{name: "string:bad", entry: "RenderString", data: c10Data, page: `<p>{{ who | nosuch }}</p>`})
@@ -230,7 +240,7 @@ func runC10(r *Run) {
 			if fmt.Sprintf("%T", p.data()) != "map[string]interface {}" || fmt.Sprintf("%T", q.data()) != "map[string]interface {}" {
 				continue
 			}
-			if strings.HasPrefix(p.name, "typed:") || strings.HasPrefix(q.name, "typed:") {
+			if strings.HasPrefix(p.name, "typed:") || strings.HasPrefix(q.name, "typed:") || strings.HasPrefix(p.name, "toggle:") || strings.HasPrefix(q.name, "toggle:") {
 				continue // these programs have data of their own: the shared map of this stream is the catalogue's
 			}
 			e := c10NewEngine()
